@@ -812,6 +812,13 @@ class AsyncFIXConnection:
 
             msg_seq_num = int(msg[FTag.MsgSeqNum])
             is_valid_msg_num = await self._check_seqnum_gaps(msg_seq_num)
+            if (
+                msg_seq_num < self._session.next_num_in
+                and msg.msg_type != FMsg.SEQUENCERESET
+            ):
+                # Already processed message (tolerated only while awaiting a resend),
+                #   it must not be passed to the application or finalized again
+                is_valid_msg_num = False
 
             if msg.msg_type == FMsg.RESENDREQUEST:
                 await self._process_resend(msg)
